@@ -778,16 +778,25 @@ type c06Plan struct {
 }
 
 func runC06(e *env) {
-	e.res.Rule = "renders: ill-typed bundles from the program grammar (hooks: any atom at any operand, wrong arities of all functions and directives, range steps <=0 and overflowing, $ij, bad accesses, % by zero) x {data of the declared kinds, arbitrary JSON data with missing params, no data} x {no ij, ij}; duplicate template names across files; inputs sharing a file name (long/short siblings, every order); floats of every kind at every argument position; exhaustive enumerations (binary operators x operand kinds, functions x argument counts 0..4 x kinds, directives x argument counts x kinds, loop functions, data-bounded recursion); soyhtml.EvalExpr on the closed enumerations; soy.ParseGlobals on generated files and on a malformed-line stream; EvalExpr on malformed token soups. Every implementation run in a worker subprocess (3 GiB, per-case timeout). Non-trivial = the case reaches an error, a call, a loop or a directive; distinct by source + data."
+	e.res.Rule = "renders: ill-typed bundles from the program grammar (hooks: any atom at any operand, wrong arities of all functions and directives, range steps <=0 and overflowing, $ij, bad accesses, % by zero) x {data of the declared kinds, arbitrary JSON data with missing params, no data} x {no ij, ij}; duplicate template names across files; inputs sharing a file name (long/short siblings, every order); floats of every kind at every argument position; exhaustive enumerations (binary operators x operand kinds, functions x argument counts 0..4 x kinds, directives x argument counts x kinds, loop functions, data-bounded recursion); soyhtml.EvalExpr on the closed enumerations; soy.ParseGlobals on generated files and on a malformed-line stream; EvalExpr on malformed token soups; soyjs.Write on every file of the accepted bundles of the ill-typed and nasty-literal streams and of hand-written deep / message / loop shapes x {ES5, ES6} x {no message bundle, a stale bundle whose parts do not belong to the message} x {buffer, failing writer, panicking writer} (oracle: returns nil or an error; recovered run-time errors are counted, not violations). Every implementation run in a worker subprocess (3 GiB, per-case timeout). Non-trivial = the case reaches an error, a call, a loop or a directive; distinct by source + data."
 	if e.replay != "" {
 		c06Replay(e)
 		return
 	}
 	perCase := 2 * time.Second
-	c06Renders(e, perCase)
-	c06Exprs(e, perCase)
-	c06Globals(e, perCase)
-	c06Ranges(e)
+	t0 := time.Now()
+	phase := func(name string, f func()) {
+		t := time.Now()
+		f()
+		e.res.Histogram[fmt.Sprintf("phase-ms:%s", name)] = int(time.Since(t).Milliseconds())
+	}
+	phase("renders", func() { c06Renders(e, perCase) })
+	phase("exprs", func() { c06Exprs(e, perCase) })
+	phase("globals", func() { c06Globals(e, perCase) })
+	phase("ranges", func() { c06Ranges(e) })
+	phase("jswrites", func() { c06JsWrites(e, perCase) })
+	phase("float-json", func() { c06FloatJSON(e) })
+	_ = t0
 }
 
 func paramNamesOf(files []srcFile, entry string) []string {
@@ -1031,7 +1040,7 @@ func c06Renders(e *env, perCase time.Duration) {
 	var plans []c06Plan
 	plans = append(plans, c06Enumerations(e)...)
 	// ---- the random ill-typed stream ----
-	n := 120 * e.scale
+	n := 100 * e.scale
 	for i := 0; i < n; i++ {
 		o := progOpts{depth: 3, directives: true, illTyped: 12, exprHook: c06ExprHook, dirHook: c06DirHook}
 		files, entry, dataSets, feats := genBundle(e.rng, o)
@@ -1714,6 +1723,10 @@ func c06Replay(e *env) {
 		var c c06Glob
 		json.Unmarshal(rp.Case, &c)
 		c06ReplayGlob(e, c, perCase)
+	case "jswrite":
+		var c c06JsCase
+		json.Unmarshal(rp.Case, &c)
+		c06ReplayJs(e, c, perCase)
 	default:
 		e.res.Note("replay file has no C06 case")
 	}
